@@ -72,7 +72,148 @@ fn gen_family(
     }
 }
 
+// ------------------------------------------------------------------------------------------
+// reopen_output() of the LoggerHandle covers every file writer of the logger: the primary one
+// and file writers registered as additional writers
+
+fn all_writers_reopen_case(ctx: &mut CaseCtx) -> CaseResult {
+    use flexi_logger::{FileSpec, LogSpecification, Logger};
+    let rng = &mut ctx.rng;
+    let modes = [WMode::Direct, WMode::BufDont(30), WMode::BufDont(8192), WMode::SupportCapture];
+    let m_primary = *rng.pick(&modes);
+    let m_aux = *rng.pick(&modes);
+    let mut res = CaseResult::new(format!("all-writers|{}|aux:{}", m_primary.label(), m_aux.label()));
+    let dirs = [ctx.dir.join("p"), ctx.dir.join("a")];
+    let aux = match flexi_logger::writers::FileLogWriter::builder(
+        FileSpec::default().directory(&dirs[1]).basename("aux").suppress_timestamp().suffix("log"),
+    )
+    .format(flw::fmt_raw)
+    .write_mode(m_aux.to_write_mode())
+    .try_build()
+    {
+        Ok(w) => w,
+        Err(e) => {
+            res.violate("build-failed", "C18/build-failed/aux", format!("{e:?}"));
+            return res;
+        }
+    };
+    let built = Logger::with(LogSpecification::trace())
+        .format(flw::fmt_raw)
+        .error_channel(flw::error_channel())
+        .log_to_file(FileSpec::default().directory(&dirs[0]).basename("prim").suppress_timestamp().suffix("log"))
+        .write_mode(m_primary.to_write_mode())
+        .add_writer("aux", Box::new(aux))
+        .build();
+    let (boxed, handle) = match built {
+        Ok(x) => x,
+        Err(e) => {
+            res.violate("build-failed", "C18/build-failed/all-writers", format!("{e:?}"));
+            return res;
+        }
+    };
+    let paths = [dirs[0].join("prim.log"), dirs[1].join("aux.log")];
+    let names = ["primary", "additional"];
+    // per writer: bytes of the segment that is being written, and the closed segments
+    let mut open: [Vec<u8>; 2] = [Vec::new(), Vec::new()];
+    let mut closed: Vec<(usize, PathBuf, Vec<u8>)> = Vec::new();
+    let mut seq = 0u64;
+    let rounds = rng.range(1, 4);
+    let mut script: Vec<String> = Vec::new();
+    let mut reopens = 0u64;
+    for round in 0..=rounds {
+        for _ in 0..rng.range(1, 12) {
+            let w = rng.usize(2);
+            let msg = flw::msg_id(ctx.case, w as u64, seq, rng.usize(40));
+            seq += 1;
+            let target = if w == 0 { "flmon::c18" } else { "{aux}" };
+            flw::with_record(log::Level::Info, target, &msg, |r| boxed.log(r));
+            open[w].extend_from_slice(msg.as_bytes());
+            open[w].push(b'\n');
+        }
+        if round == rounds {
+            break;
+        }
+        // take away the current file of one or both writers, then one reopen_output() for all
+        let which: Vec<usize> = match rng.below(3) {
+            0 => vec![0],
+            1 => vec![1],
+            _ => vec![0, 1],
+        };
+        let mut took = false;
+        for &w in &which {
+            if !paths[w].exists() {
+                continue;
+            }
+            if rng.chance(1, 4) {
+                // removed: what was written (or still buffered) before is gone with the file
+                if std::fs::remove_file(&paths[w]).is_ok() {
+                    open[w].clear();
+                    script.push(format!("remove {}", names[w]));
+                    took = true;
+                }
+            } else {
+                let target = ctx.dir.join(format!("moved_{}_{}.bak", names[w], closed.len()));
+                if std::fs::rename(&paths[w], &target).is_ok() {
+                    closed.push((w, target, std::mem::take(&mut open[w])));
+                    script.push(format!("rename {}", names[w]));
+                    took = true;
+                }
+            }
+        }
+        if took {
+            reopens += 1;
+            script.push("reopen_output".into());
+            if let Err(e) = handle.reopen_output() {
+                res.violate("op-error", "C18/reopen-error/all-writers", format!("reopen_output returned {e:?}"));
+                break;
+            }
+        }
+    }
+    handle.shutdown();
+    let facts = format!("{}+aux:{}", m_primary.label(), m_aux.label());
+    if res.verdict == Verdict::Held {
+        for w in 0..2 {
+            let got = std::fs::read(&paths[w]).unwrap_or_default();
+            res.count("files_compared", 1);
+            if let Some(d) = flw::diff_bytes(&open[w], &got) {
+                res.violate(
+                    "records-after-reopen",
+                    format!("C18/file-at-original-path/{}-writer/{facts}", names[w]),
+                    format!(
+                        "the {} file writer's file at its original path must hold exactly the records logged since the last reopen_output(): {d}; script {script:?}",
+                        names[w]
+                    ),
+                );
+            }
+        }
+        for (w, p, exp) in &closed {
+            res.count("renamed_files_compared", 1);
+            let got = std::fs::read(p).unwrap_or_default();
+            if let Some(d) = flw::diff_bytes(exp, &got) {
+                res.violate(
+                    "renamed-file-content",
+                    format!("C18/renamed-file-content/{}-writer/{facts}", names[*w]),
+                    format!("{}: {d}; script {script:?}", p.file_name().unwrap_or_default().to_string_lossy()),
+                );
+            }
+        }
+    }
+    drop(handle);
+    drop(boxed);
+    res.absorb_panics("C18", "reopen_output with an additional file writer");
+    res.count("records", seq);
+    res.count("reopen_output_calls_with_additional_writer", reopens);
+    res.nontrivial = reopens >= 1;
+    if ctx.case < 16 || res.verdict != Verdict::Held {
+        res.sample = Some(json!({"script": script, "primary_mode": format!("{m_primary:?}"), "additional_writer_mode": format!("{m_aux:?}")}));
+    }
+    res
+}
+
 pub fn run_case(ctx: &mut CaseCtx) -> CaseResult {
+    if ctx.case % 8 == 5 {
+        return all_writers_reopen_case(ctx);
+    }
     let rng = &mut ctx.rng;
     let wmode = match rng.below(10) {
         0..=3 => WMode::Direct,
